@@ -96,6 +96,11 @@ CHECKS = {
          "Every combination of history relation between a ref's old and offered value (new, equal, ahead, far ahead, ahead through a shortcut merge, behind, diverged, unrelated), ref kind (remote-tracking, head, tag, custom), force mode (none, '+', --force) and operation (wrgl fetch, wrgl push; wrgl merge / wrgl pull with default, --no-ff, --ff-only), with a second always-legal ref in the same operation and (thorough) three commit-time orders, is executed on an on-disk repository against the reference server. The resulting ref values, reported rejections and newest reflog entries are compared with the transition model. The rule is a safety condition over history shapes; the shapes are enumerated rather than sampled.",
          "Trusted: refsrv for the remote side; the 6-commit universe realising the relations; the transition model (40 lines).",
          "DESIGN.md §4 C10"),
+ "C13": ("fault_enumeration",
+         "exhaustive enumeration of crash points: every prefix of an operation's store-write sequence (recording stores), every injected write error, and real subprocess kills at every write of the on-disk stores",
+         "Library tier: one uninterrupted run of each operation (commit, receive + ref update, prune, 3-way merge commit; 13 operation instances) on recording stores yields the durable state after every store write; each such state - and each state left by an injected write error - is checked for repository consistency, then the operation is re-run on it and must end where an uninterrupted run ends. CLI tier: the real wrgl command path (commit, merge ff / no-ff / 3-way, pull from the reference server, prune) runs as a subprocess built with a crash hook in the Badger and SQLite store write paths and is killed at the k-th write for every k; the repository is reopened, checked, the command re-run and the result compared with an uninterrupted run.",
+         "Trusted: each store write is atomic (Badger Update / one SQL statement or transaction), so 'died between two writes' is the crash model; torn writes and fsync reordering inside Badger/SQLite are not modelled. The crash hook is applied by build-time overlay (fail-closed).",
+         "DESIGN.md §4 C13"),
 }
 
 NOT_YET = {}
@@ -126,7 +131,7 @@ def main():
         "setup_cmd": "./run.sh setup",
         "hooks": {
             "guard": "verif",
-            "enable": "none needed in /repo: instrumentation (scaled block size, cooperative scheduler shim, crash hook) is applied at build time with `go build -overlay` generated by /verif from /repo's current files; overlay-injected files carry the build tag `verif`",
+            "enable": "none needed in /repo: instrumentation (scaled block size, map-order ownership, cooperative scheduler shim, crash hook VERIF_CRASH_AT in the Badger / SQLite store write paths, export of the packfile header codec) is applied at build time with `go build -overlay` generated by /verif/cmd/instr from /repo's current files; overlay-injected files carry the build tag expression `verif || !verif`",
             "baseline_off_cmd": BASE,
             "source_commits": [],
             "add_only": True,
